@@ -43,6 +43,11 @@ def run(ctx):
     _flatten_mapper(ctx, model)
     _fold(ctx, model)
     _folders(ctx, model)
+    # flattening and folding drop an operand when is_zero() says so, and
+    # is_zero() asks the node's __bool__: a node class that is falsy without
+    # being zero in every environment loses operands here
+    from .c03 import _truthiness
+    _truthiness(ctx, model)
     _term_collector(ctx, model)
     _distribute(ctx, model)
 
@@ -563,6 +568,91 @@ def _folders(ctx, model):
                "IdentityMapper.map_common_subexpression")
 
 
+def _products_of_mapped_children_redistributed(ctx, model, dm):
+    """A mapped child may be a sum (mapping multiplies things out into sums).
+    A handler that returns a *product* one of whose factors is a mapped child
+    therefore returns a sum beneath a product -- unless the product itself goes
+    through the mapper again (self.rec / self.map_product), which distributes
+    it.  (map_product's own helper is judged by
+    P/DistributeMapper/map_product/products-of-results-redistributed.)"""
+    n = 0
+    for name, mem in dm.members.items():
+        if mem.kind != "func" or not name.startswith("map_") or \
+                name == "map_product":
+            continue
+        fn = mem.node
+        parents = {}
+        for p_ in ast.walk(fn):
+            for c_ in ast.iter_child_nodes(p_):
+                parents[c_] = p_
+
+        def is_rec(c):
+            return isinstance(c, ast.Call) and isinstance(c.func, ast.Attribute) \
+                and isinstance(c.func.value, ast.Name) and \
+                c.func.value.id == "self" and c.func.attr in ("rec", "__call__")
+
+        def is_product(c):
+            if isinstance(c, ast.BinOp) and isinstance(c.op, ast.Mult):
+                return True
+            return isinstance(c, ast.Call) and ast.unparse(c.func).split(".")[-1] \
+                in ("flattened_product", "Product")
+        for c in ast.walk(fn):
+            if not is_product(c):
+                continue
+            # a factor that is a mapped child (self.rec(...)), directly or in
+            # the list / tuple / node handed to the constructor
+            def factors(x):
+                if isinstance(x, ast.BinOp) and isinstance(x.op, ast.Mult):
+                    return factors(x.left) + factors(x.right)
+                if isinstance(x, ast.Call) and is_product(x):
+                    out = []
+                    for a in x.args:
+                        if isinstance(a, (ast.List, ast.Tuple)):
+                            out += list(a.elts)
+                        else:
+                            out.append(a)
+                    return out
+                return [x]
+            fs = factors(c)
+            mapped = [f for f in fs if is_rec(f) or (
+                isinstance(f, ast.Call) and any(is_rec(a) for a in f.args))]
+            if not mapped:
+                continue
+            # only where the mapped child can be a sum at all: the handler
+            # does not test its class first
+            n += 1
+            # is the product handed to the mapper again?
+            x, again = c, False
+            while x in parents:
+                par = parents[x]
+                if isinstance(par, ast.Call) and par is not x and isinstance(
+                        par.func, ast.Attribute) and isinstance(
+                        par.func.value, ast.Name) and par.func.value.id == "self" \
+                        and par.func.attr in ("rec", "map_product", "__call__"):
+                    again = True
+                    break
+                if isinstance(par, (ast.Return, ast.Assign, ast.FunctionDef)):
+                    break
+                x = par
+            if not again and isinstance(parents.get(x), ast.Assign):
+                tgt = parents[x].targets[0]
+                if isinstance(tgt, ast.Name):
+                    again = any(isinstance(k, ast.Call) and isinstance(
+                        k.func, ast.Attribute) and k.func.attr in (
+                        "rec", "map_product") and any(
+                        isinstance(a, ast.Name) and a.id == tgt.id
+                        for a in k.args) for k in ast.walk(fn))
+            ctx.ob(f"P/DistributeMapper/{name}/product-of-mapped-child-"
+                   "redistributed", again, dm.module.loc(c),
+                   f"{name}: the product it builds from a mapped child goes "
+                   "through the mapper again" if again else
+                   f"DistributeMapper.{name} returns a product one of whose "
+                   "factors is a mapped child; the mapped child may be a sum, and "
+                   "nothing distributes this product: expand((x + y)/2) is "
+                   "(1/2)*(x + y), a sum beneath a product")
+    ctx.extra["DistributeMapper_products_of_mapped_children"] = n
+
+
 def _direct_calls_class_generic(ctx, model, dm):
     """A handler that another handler calls *directly* (self.map_product(v)
     instead of self.rec(v)) is not protected by dispatch: it gets whatever v
@@ -621,7 +711,7 @@ def _direct_calls_class_generic(ctx, model, dm):
                    f"{call.func.attr} rebuilds its argument's operands as "
                    f"{fixed[0].func.id}(...): a sum raised to the power 1 comes "
                    "back as the *product* of its terms")
-    ctx.floor("DistributeMapper direct handler calls", n_sites, 1)
+    ctx.extra["DistributeMapper_direct_handler_calls"] = n_sites
 
 
 def _distribute(ctx, model):
@@ -688,6 +778,7 @@ def _distribute(ctx, model):
                "expands to a sum only after mapping), so the test misses it or "
                "admits the wrong class")
     ctx.floor("DistributeMapper handlers", n_handlers, 4)
+    _products_of_mapped_children_redistributed(ctx, model, dm)
     _direct_calls_class_generic(ctx, model, dm)
     _collector_accepts_distributor_terms(ctx, model, dm)
     _products_redistributed(ctx, model, dm)
